@@ -148,6 +148,9 @@ def run(pid, tier, seed):
     res.obligations = obls + sem.obligations
     res.struct += sem.struct
     res.notes.append("ASTEQ obligations: %d; shared-contract obligations of both families: %d" % (len(obls), len(sem.obligations)))
+    dis = [o for o in res.obligations if str(getattr(o, "second", "") or "").startswith("DISAGREE")]
+    if dis:
+        res.faults.append("back ends disagree on %s (%s)" % (dis[0].name, dis[0].second))
     bad = [o for o in res.obligations if o.result != "unsat"]
     if bad or res.struct:
         names = [o.name for o in bad] + ["STRUCT:" + s.ident for s in res.struct]
